@@ -19,6 +19,10 @@ func c03Engine(rc *RunCtx, sr, bm bool) (*Engine, error) {
 	return StdEngine(rc, false, false, func(gs *ct.GenesisState, cfg *chain.Config) {
 		gs.SendingAndReceivingMessagesPaused.Paused = sr
 		gs.BurningAndMintingPaused.Paused = bm
+		if rc.Shard%2 == 1 {
+			// per-message burn limits far below every inbound amount: they bound outbound burns only
+			gs.PerMessageBurnLimitList = []ct.PerMessageBurnLimit{{Denom: "uusdc", Amount: sdkInt(50)}, {Denom: "ueure", Amount: sdkInt(0)}}
+		}
 		for i := 0; i < c03UsedN; i++ {
 			for _, d := range []uint32{0, 1, 2} {
 				gs.UsedNoncesList = append(gs.UsedNoncesList, ct.Nonce{SourceDomain: d, Nonce: c03UsedBase + uint64(i)})
